@@ -100,7 +100,9 @@ def index_formula(kind, s, x, y, z):
         system = grid_system(3, 2, 2, [0] * 12)
         size, w, h = 12, 3, 2
         cell = z * w * h + y * w + x
-        forms = [cell, (x, y, z), Coord(x, y, z)]
+        forms = [cell, (x, y, z), Coord(x, y, z), [x, y, z], np.array([x, y, z]),
+                 # positions INSIDE the cell (each coordinate is truncated on its own), in every coordinate form
+                 (x + 0.5, y + 0.25, z + 0.75), [x + 0.75, y + 0.5, z + 0.25], np.array([x + 0.25, y + 0.75, z + 0.5]), Coord(x + 0.5, y + 0.5, z + 0.5)]
     else:
         system = graph_system([0, 1, 2, 0], [1.0, 8.0, 0.125, 27.0])
         size, cell = 4, x
@@ -110,6 +112,19 @@ def index_formula(kind, s, x, y, z):
         for pos in forms:
             if system.get_state_index(sp, pos) != s * size + cell:
                 return False
+    # ... and the per-entry getters / setters address the same entry through every form
+    for pos in forms[1:]:
+        system.set_state(s, pos, 41.5)
+        if float(system.state.value[s * size + cell]) != 41.5 or float(system.get_state(s, pos).value) != 41.5:
+            return False
+        system.set_state(s, cell, 1.0)
+        c0 = [int(c) for c in system.chemostats]
+        new = 1 - c0[s * size + cell]
+        system.set_chemostat(s, pos, new)
+        c1 = [int(c) for c in system.chemostats]
+        if c1[s * size + cell] != new or sum(1 for p_, q_ in zip(c0, c1) if p_ != q_) != 1 or int(system.get_chemostat(s, pos)) != new:
+            return False
+        system.set_chemostat(s, cell, c0[s * size + cell])
     return True
 
 
